@@ -83,11 +83,12 @@ def eng() -> "Engine":
 
 
 class Engine:
-    def __init__(self, query_timeout_ms=5000, max_paths=3000, wall_budget_s=None, stop_at_first_cex=True):
+    def __init__(self, query_timeout_ms=5000, max_paths=3000, wall_budget_s=None, stop_at_first_cex=True, max_cex=3):
         self.query_timeout_ms = query_timeout_ms
         self.max_paths = max_paths
         self.wall_budget_s = wall_budget_s
         self.stop_at_first_cex = stop_at_first_cex
+        self.max_cex = max_cex
         self.stats = Stats()
         self.solver = None
         self.decisions: list = []
@@ -272,7 +273,8 @@ class Engine:
                     on_result(res)
                 if res.status != "discharged":
                     out.append(res)
-                    if res.status == "cex" and self.stop_at_first_cex:
+                    if res.status in ("cex", "error") and self.stop_at_first_cex and \
+                            sum(1 for r in out if r.status in ("cex", "error")) >= self.max_cex:
                         if self.worklist:
                             self.stats.truncated = True
                         break
